@@ -111,7 +111,7 @@ Section Frame.
     Variable rr : state -> string -> Z -> state * outcome bool.
     Hypothesis rr_R : forall s id now, R s (fst (rr s id now)).
 
-    Lemma expire_R s id fact now : R s (fst (expire rr s id fact now)).
+    Lemma expire_R s id fact now : R s (fst (fst (expire rr s id fact now))).
     Proof.
       unfold expire. destruct (fact_expired fact now); [|apply R_refl].
       pose proof (rr_R s id now) as H.
@@ -127,7 +127,8 @@ Section Frame.
       - apply R_refl.
       - destruct (alookup id (st_facts s)) as [fact|]; [|apply IH].
         pose proof (expire_R s id fact now) as H.
-        destruct (expire rr s id fact now) as [s1 expired]. cbn [fst] in H.
+        destruct (expire rr s id fact now) as [[s1 expired] err]. cbn [fst] in H.
+        destruct (expire_stops (st_kind s) err); [exact H|].
         destruct expired; [eapply R_trans; [exact H|apply IH]|].
         destruct (core_match pattern fact []) as [[|b bss]|e|w|]; try exact H;
           (eapply R_trans; [exact H|apply IH]).
@@ -206,7 +207,7 @@ Section Frame.
     - apply R_refl.
     - destruct (alookup id (st_facts s)) as [fact|]; [|apply R_refl].
       pose proof (expire_R st_rem_rec st_rem_rec_R s id fact now) as H.
-      destruct (expire st_rem_rec s id fact now) as [s1 expired]. cbn [fst] in H.
+      destruct (expire st_rem_rec s id fact now) as [[s1 expired] err]. cbn [fst] in H.
       destruct expired; [eapply R_trans; [exact H|apply IH]|].
       destruct (extract_rule fact true) as [[body|]|e|w|]; try exact H.
       eapply R_trans; [exact H|apply IH].
@@ -219,9 +220,10 @@ Section Frame.
     - destruct (alookup id (st_facts s)) as [fact|]; [|apply IH].
       destruct (jget "rule" fact) as [rule|]; [|apply IH].
       pose proof (expire_R st_rem_rec st_rem_rec_R s id fact now) as H.
-      destruct (expire st_rem_rec s id fact now) as [s1 expired]. cbn [fst] in H.
+      destruct (expire st_rem_rec s id fact now) as [[s1 expired] err]. cbn [fst] in H.
       assert (Hn : forall acc', R s (fst (find_ids_lin s1 r ev now acc'))).
       { intros acc'. eapply R_trans; [exact H|apply IH]. }
+      destruct err; [exact H|].
       destruct expired; [apply Hn|].
       destruct rule as [| | | | |rm]; try apply Hn.
       destruct (alookup "when" rm) as [[| | | | |w]|]; try apply Hn.
